@@ -28,6 +28,10 @@ func TestSweep(t *testing.T) {
 			Oracle.One(t, env, rec, "sweep", &Case{Op: "conv", T: e.S.Name, U: e.D.Name, C: 8, F: 4096})
 		}
 	}
+	// every conversion in turns with two other instantiations of its function
+	for i, e := range convtab.Entries {
+		Oracle.One(t, env, rec, "sweep", &Case{Op: "convInTurns", T: e.S.Name, U: e.D.Name, C: 1 + i%3, F: 5 + i%60, Window: i%2 == 0})
+	}
 	for _, sh := range shapes {
 		for _, win := range []bool{false, true} {
 			for _, e := range convtab.Entries {
